@@ -91,15 +91,57 @@ func scnC07Sshd(rc *RunCtx) {
 	rc.Cleanup(cancel)
 	seed := uint64(rc.Index)*7919 + 17
 
+	// the correlator side of the logins channel is busy for a taped simulated time in half of
+	// the runs (same for both paths): unbuffered channel, consumer task starts receiving late
+	busyMs := 0
+	if t.Choose(2, "busy") == 1 {
+		busyMs = []int{500, 1500, 2500, 5000}[t.Choose(4, "busy.ms")]
+	}
+	lateConsumer := func(name string, ch chan common.RemoteUserLogin, out *[]common.RemoteUserLogin, stop chan struct{}) {
+		rc.Sim.Spawn(name, func() {
+			simrt.Sleep(time.Duration(busyMs)*time.Millisecond, "world.correlator.busy")
+			for {
+				c0, c1 := simrt.Recv(ch), simrt.Recv(stop)
+				if simrt.Select(name, false, c0, c1) != 0 {
+					return
+				}
+				*out = append(*out, c0.Val)
+			}
+		})
+	}
+	stopAll := make(chan struct{})
+	rc.Cleanup(func() { close(stopAll) })
+
 	// (a) direct
 	uuid.SetRand(simrt.NewRandReader(seed))
 	recA := &Recorder{Sim: rc.Sim, NoPoint: true}
-	chA := make(chan common.RemoteUserLogin, 4)
 	a := &sshdRun{}
-	if err := newSshdProc(ctx, recA, chA).ProcessSshdLogEntry(ctx, sshd.SshdLogEntry{PID: m.PID, Message: m.Msg}); err != nil {
-		a.errs = append(a.errs, err.Error())
+	if busyMs == 0 {
+		chA := make(chan common.RemoteUserLogin, 4)
+		if err := newSshdProc(ctx, recA, chA).ProcessSshdLogEntry(ctx, sshd.SshdLogEntry{PID: m.PID, Message: m.Msg}); err != nil {
+			a.errs = append(a.errs, err.Error())
+		}
+		a.logins = drainLogins(chA)
+	} else {
+		chA := make(chan common.RemoteUserLogin)
+		lateConsumer("world.correlatorA", chA, &a.logins, stopAll)
+		doneA := &doneFlag{}
+		rc.Sim.Spawn("direct", func() {
+			doneA.set(newSshdProc(ctx, recA, chA).ProcessSshdLogEntry(ctx, sshd.SshdLogEntry{PID: m.PID, Message: m.Msg}))
+		})
+		rc.Sim.Policy = simrt.PolicyRunToBlock
+		for i := 0; i < 70 && !doneA.v; i++ {
+			rc.Sim.RunUntil(func() bool { return doneA.v }, 100000)
+			if !doneA.v {
+				time.Sleep(100 * time.Millisecond)
+			}
+		}
+		rc.Sim.RunUntil(nil, 100000)
+		if doneA.err != nil {
+			a.errs = append(a.errs, doneA.err.Error())
+		}
 	}
-	a.events, a.logins = recA.Events, drainLogins(chA)
+	a.events = recA.Events
 
 	// (b') callback level
 	uuid.SetRand(simrt.NewRandReader(seed))
@@ -116,6 +158,11 @@ func scnC07Sshd(rc *RunCtx) {
 	uuid.SetRand(simrt.NewRandReader(seed))
 	recB := &Recorder{Sim: rc.Sim}
 	chB := make(chan common.RemoteUserLogin, 4)
+	b := &sshdRun{}
+	if busyMs > 0 {
+		chB = make(chan common.RemoteUserLogin)
+		lateConsumer("world.correlatorB", chB, &b.logins, stopAll)
+	}
 	path := "/sim/c07-sshd-pipe"
 	pipe := rc.Sim.AddPipe(path)
 	rc.Sim.Knobs["bufio"] = []int{4096, 16, 64}[t.Choose(3, "bufio")]
@@ -125,8 +172,12 @@ func scnC07Sshd(rc *RunCtx) {
 	pp := &Pipeline{rc: rc}
 	rc.Sim.Spawn("world.sshd", func() {
 		w := pipe.OpenWriter()
-		for _, ch := range pp.chunks([]byte(line)) {
+		for i, ch := range pp.chunks([]byte(line)) {
 			simrt.Point("world.chunk")
+			if i > 0 && rc.Sim.Tape.ChooseBiased(3, "chunk.pause") == 1 {
+				// a slow writer: the rest of the record arrives seconds later
+				simrt.Sleep(time.Duration(200+rc.Sim.Tape.Choose(3000, "chunk.pause.ms"))*time.Millisecond, "world.chunk.pause")
+			}
 			w.Write(ch)
 		}
 		simrt.Point("world.close")
@@ -134,7 +185,7 @@ func scnC07Sshd(rc *RunCtx) {
 	})
 	pipelinePolicy(rc)
 	ok := false
-	for i := 0; i < 20; i++ {
+	for i := 0; i < 200; i++ {
 		if why := rc.Sim.RunUntil(func() bool { return res.v }, 100000); why == "stop" {
 			ok = true
 			break
@@ -143,10 +194,14 @@ func scnC07Sshd(rc *RunCtx) {
 		}
 		time.Sleep(100 * time.Millisecond)
 	}
-	b := &sshdRun{events: recB.Events, logins: drainLogins(chB)}
-	rc.CaseKey(form, m.Msg, pad)
+	rc.Sim.RunUntil(nil, 100000)
+	b.events = recB.Events
+	if busyMs == 0 {
+		b.logins = drainLogins(chB)
+	}
+	rc.CaseKey(form, m.Msg, pad, busyMs)
 	rc.R.NonTrivial = len(a.events) > 0
-	rc.R.Sample = map[string]any{"form": form, "pid": m.PID, "message": m.Msg, "padding": pad + 1, "direct_events": len(a.events), "pipe_events": len(b.events), "direct_logins": len(a.logins), "pipe_logins": len(b.logins)}
+	rc.R.Sample = map[string]any{"form": form, "pid": m.PID, "message": m.Msg, "padding": pad + 1, "correlator_busy_ms": busyMs, "direct_events": len(a.events), "pipe_events": len(b.events), "direct_logins": len(a.logins), "pipe_logins": len(b.logins)}
 	if !ok {
 		rc.Abort("syslog ingester did not finish: %v", rc.Sim.Live())
 		return
